@@ -38,16 +38,11 @@ theorem marksOfAll_clean : ∀ (vs : List Value), (∀ v ∈ vs, v.v.containsMar
     rw [h1, marksOfAll_clean vs fun x hx => h x (List.mem_cons_of_mem _ hx)]
     rfl
 
-section
-variable {E : Env} (e : Ty) (ids : List Int) (ps : List Payload)
-  (he : wf e = true) (heo : hasOpt e = false) (hed : hasDyn e = false) (hne : ps ≠ [])
-  (hcl : Payload.containsMarkedL ps = false)
-include he heo hed hne hcl
-
 /-- the members, in iteration order, as the element values both conversions see -/
-private def members (E : Env) (e : Ty) (ps : List Payload) : List Value := (setValues E e ps).map fun p => ⟨e, p⟩
+def members (E : Env) (e : Ty) (ps : List Payload) : List Value := (setValues E e ps).map fun p => ⟨e, p⟩
 
-theorem members_facts :
+theorem members_facts {E : Env} (e : Ty) (ps : List Payload) (hne : ps ≠ [])
+    (hcl : Payload.containsMarkedL ps = false) :
     members E e ps ≠ [] ∧ (∀ x ∈ members E e ps, x.ty = e) ∧
     (∀ x ∈ members E e ps, x.v.containsMarked = false) ∧ (members E e ps).map (·.v) = setValues E e ps := by
   have hmem : ∀ x ∈ members E e ps, x.ty = e ∧ x.v.containsMarked = false := by
@@ -61,8 +56,6 @@ theorem members_facts :
     exact hne (List.length_eq_zero_iff.mp this.symm)
   · simp [members, List.map_map, Function.comp_def]
 
-end
-
 /-- **set → list → set**: a wholly known set of a placeholder-free element type, members unmarked,
 converts to the list of its members in iteration order, and that list converts back (an unsafe
 conversion: list → set) to the ORIGINAL set — for every environment, every fuel ≥ 2. -/
@@ -74,7 +67,7 @@ theorem set_list_set_same {E : Env} (fuel : Nat) (e : Ty) (ids : List Int) (ps :
     convert E (fuel + 2) ⟨.list e, .seq (setValues E e ps)⟩ (.set e) = .ok ⟨.set e, .sset ids ps⟩ := by
   have hnd : e.isDyn = false := not_isDyn_of_noDyn hed
   have hee : e.equals e = true := equals_self he
-  obtain ⟨hnz, hty, hclean, hv⟩ := members_facts (E := E) e ids ps he heo hed hne hcl
+  obtain ⟨hnz, hty, hclean, hv⟩ := members_facts (E := E) e ps hne hcl
   have hmr : ∀ (rec : Rec), mapRes (fun x => (applyOpt rec Plan.nil x).map stripNull) (members E e ps) =
       .ok (members E e ps) := by
     intro rec
